@@ -146,6 +146,7 @@ def run(ctx):
                 "order-declared / generator (lazy table, fresh and warmed) / legacy objects, and mul_add(a, Q, b) for Q in {P, -P, 2P, "
                 "identity, other} x Q representation; TLC recomputes k-fold sums with CurveP.tla; production: 17 curves x structured "
                 "scalars, 7 independent multiplication paths must agree, n*P = infinity, on-curve, scalar algebra identities; "
-                "non-trivial = distinct (curve, operand triples, scalars)" % plan)
+                "the identity as handed out by the library (n*P, P+(-P), 0*P) times scalars of either sign; mul_add with multipliers of opposite "
+                "sign and different size; non-trivial = distinct (curve, operand triples, scalars)" % plan)
     ctx.exhaustive = False
     ctx.assumptions += ["production-size products are cross-validated between independent library paths, not recomputed by TLC"]
